@@ -60,10 +60,10 @@ VARIABLE case
 Next == UNCHANGED case
 Para(r) == IF r = "neither" THEN Neither ELSE Full(r)
 \* one designated paragraph takes every variant, the others are complete
-Init == \E k \in DOMAIN Shapes : \E sh \in Shapes[k] : \E d \in 1..Len(sh.s) : \E cm \in BOOLEAN, bl \in 1..2, vs \in 1..NSamples :
+Init == \E k \in DOMAIN Shapes : \E sh \in Shapes[k] : \E d \in 1..Len(sh.s) : \E cm \in BOOLEAN, bl \in 1..2, vs \in 1..NSamples, rev \in BOOLEAN :
           \E v \in (IF sh.s[d] = "neither" THEN {Neither} ELSE Variants(sh.s[d])) :
             LET ps == [i \in 1..Len(sh.s) |-> IF i = d THEN v ELSE Para(sh.s[i])] IN
-            case = [kind |-> k, paras |-> ps, comments |-> cm, blanks |-> bl, vs |-> vs,
+            case = [kind |-> k, paras |-> ps, comments |-> cm, blanks |-> bl, vs |-> vs, rev |-> (rev /\ vs = 1),   \* rev: the fields of every paragraph in REVERSE order (the field that gives a paragraph its role is then not the first)
                     ok |-> sh.ok /\ \A i \in 1..Len(ps) : ~ps[i].bad]
 \* the verdict follows the rules: a document is accepted iff its shape is allowed and no mandatory field is missing
 Rules == case.ok <=> /\ \E sh \in Shapes[case.kind] : sh.ok /\ sh.s = [i \in 1..Len(case.paras) |-> case.paras[i].role]
